@@ -1,0 +1,79 @@
+//go:build verif
+
+package client
+
+import (
+	"fmt"
+	"time"
+
+	"github.com/nats-io/nats.go"
+	"github.com/simpleiot/simpleiot/data"
+)
+
+// This file is only compiled with the build tag "verif". It adds no behaviour
+// to the package; it lets the verification harness reach the unexported rule
+// machinery (RuleClient.config, ruleProcessPoints, the run closure of Run).
+
+// verifCopyRule returns a copy of cfg that shares no slice with it, so that
+// the rule client under test never writes into the caller's configuration.
+func verifCopyRule(cfg Rule) Rule {
+	ret := cfg
+	ret.Conditions = make([]Condition, len(cfg.Conditions))
+	for i, c := range cfg.Conditions {
+		c.Weekdays = append([]bool(nil), c.Weekdays...)
+		c.Dates = append([]string(nil), c.Dates...)
+		ret.Conditions[i] = c
+	}
+	ret.Actions = append([]Action{}, cfg.Actions...)
+	ret.ActionsInactive = append([]Action{}, cfg.ActionsInactive...)
+	return ret
+}
+
+// VerifRuleProcess runs one batch of points from node nodeID through
+// ruleProcessPoints of a rule client configured with cfg. Points the client
+// sends go out through nc. It returns the client's configuration afterwards
+// and the results of ruleProcessPoints.
+func VerifRuleProcess(nc *nats.Conn, cfg Rule, nodeID string, pts data.Points) (Rule, bool, bool, error) {
+	rc := NewRuleClient(nc, verifCopyRule(cfg)).(*RuleClient)
+	active, changed, err := rc.ruleProcessPoints(nodeID, pts)
+	return rc.config, active, changed, err
+}
+
+// VerifRuleRun starts the Run loop of a rule client configured with cfg, hands
+// it one batch of points exactly as the subscription callback of Run does
+// (channel newRulePoints), stops the client and returns its configuration
+// once Run has returned. The batch is therefore handled by the run closure of
+// Run itself (ruleProcessPoints, then ruleRunActions / ruleInactiveActions on
+// a state change).
+func VerifRuleRun(nc *nats.Conn, cfg Rule, nodeID string, pts data.Points) (Rule, error) {
+	rc := NewRuleClient(nc, verifCopyRule(cfg)).(*RuleClient)
+	done := make(chan error, 1)
+	go func() {
+		defer func() {
+			if r := recover(); r != nil {
+				done <- fmt.Errorf("panic: %v", r)
+			}
+		}()
+		done <- rc.Run()
+	}()
+	select {
+	case rc.newRulePoints <- NewPoints{nodeID, "", pts}:
+	case err := <-done:
+		return rc.config, fmt.Errorf("Run returned before taking points: %v", err)
+	}
+	rc.Stop(nil)
+	err := <-done
+	return rc.config, err
+}
+
+// VerifRuleScheduleActive evaluates the schedule of condition c at time t the
+// way ruleProcessPoints does for a trigger point.
+func VerifRuleScheduleActive(c Condition, t time.Time) (bool, error) {
+	weekdays := []time.Weekday{}
+	for i, v := range c.Weekdays {
+		if v {
+			weekdays = append(weekdays, time.Weekday(i))
+		}
+	}
+	return newSchedule(c.Start, c.End, weekdays, c.Dates).activeForTime(t)
+}
